@@ -180,6 +180,7 @@ func (d *DiskQueue) deleteAllFiles() error {
 	err := d.skipToNextRWFile()
 
 	innerErr := os.Remove(d.metaDataFileName())
+	d.verifCrashPoint("meta-remove")
 	if innerErr != nil && !os.IsNotExist(innerErr) {
 		log.Printf("ERROR: diskqueue(%s) failed to remove metadata file - %s", d.name, innerErr.Error())
 		return innerErr
@@ -204,6 +205,7 @@ func (d *DiskQueue) skipToNextRWFile() error {
 	for i := d.readFileNum; i <= d.writeFileNum; i++ {
 		fn := d.fileName(i)
 		innerErr := os.Remove(fn)
+		d.verifCrashPoint("segment-remove-all")
 		if innerErr != nil && !os.IsNotExist(innerErr) {
 			log.Printf("ERROR: diskqueue(%s) failed to remove data file - %s", d.name, innerErr.Error())
 			err = innerErr
@@ -297,6 +299,7 @@ func (d *DiskQueue) writeOne(data []byte) error {
 		if err != nil {
 			return err
 		}
+		d.verifCrashPoint("segment-open")
 
 		log.Printf("DISKQUEUE(%s): writeOne() opened %s", d.name, curFileName)
 
@@ -330,6 +333,7 @@ func (d *DiskQueue) writeOne(data []byte) error {
 		d.writeFile = nil
 		return err
 	}
+	d.verifCrashPoint("segment-write")
 
 	totalBytes := int64(4 + dataLen)
 	d.writePos += totalBytes
@@ -338,6 +342,7 @@ func (d *DiskQueue) writeOne(data []byte) error {
 	if d.writePos > d.maxBytesPerFile {
 		d.writeFileNum++
 		d.writePos = 0
+		d.verifCrashPoint("rollover")
 
 		// sync every time we start writing to a new file
 		err = d.sync()
@@ -363,12 +368,14 @@ func (d *DiskQueue) sync() error {
 			d.writeFile = nil
 			return err
 		}
+		d.verifCrashPoint("segment-fsync")
 	}
 
 	err := d.persistMetaData()
 	if err != nil {
 		return err
 	}
+	d.verifCrashPoint("meta-rename")
 
 	d.needSync = false
 	return nil
@@ -414,6 +421,7 @@ func (d *DiskQueue) persistMetaData() error {
 	if err != nil {
 		return err
 	}
+	d.verifCrashPoint("meta-tmp-create")
 
 	_, err = fmt.Fprintf(f, "%d\n%d,%d\n%d,%d\n",
 		atomic.LoadInt64(&d.depth),
@@ -424,6 +432,7 @@ func (d *DiskQueue) persistMetaData() error {
 		return err
 	}
 	f.Sync()
+	d.verifCrashPoint("meta-tmp-write")
 	f.Close()
 
 	// atomically rename
@@ -471,6 +480,7 @@ func (d *DiskQueue) checkTailCorruption(depth int64) {
 }
 
 func (d *DiskQueue) moveForward() {
+	d.verifCrashPoint("delivered")
 	oldReadFileNum := d.readFileNum
 	d.readFileNum = d.nextReadFileNum
 	d.readPos = d.nextReadPos
@@ -483,12 +493,14 @@ func (d *DiskQueue) moveForward() {
 
 		fn := d.fileName(oldReadFileNum)
 		err := os.Remove(fn)
+		d.verifCrashPoint("segment-remove")
 		if err != nil {
 			log.Printf("ERROR: failed to Remove(%s) - %s", fn, err.Error())
 		}
 	}
 
 	d.checkTailCorruption(depth)
+	d.verifCrashPoint("delivered-done")
 }
 
 func (d *DiskQueue) handleReadError() {
@@ -510,6 +522,7 @@ func (d *DiskQueue) handleReadError() {
 	log.Printf("NOTICE: diskqueue(%s) jump to next file and saving bad file as %s", d.name, badRenameFn)
 
 	err := os.Rename(badFn, badRenameFn)
+	d.verifCrashPoint("bad-rename")
 	if err != nil {
 		log.Printf("ERROR: diskqueue(%s) failed to rename bad diskqueue file %s to %s", d.name, badFn, badRenameFn)
 	}
